@@ -356,6 +356,18 @@ class _Inliner:
             return self.splice(st.value, lambda e, at: [loc(ast.Assign(targets=[copy_tree(tgt)], value=e if e is not None else ast.Constant(value=None)))], need_value=True)
         if isinstance(st, ast.Return) and isinstance(st.value, ast.Call):
             return self.splice(st.value, lambda e, at: [loc(ast.Return(value=e))], need_value=True, tail=True)
+        if isinstance(st, ast.AugAssign) and isinstance(st.value, ast.Call) and _simple_arg(st.target):
+            # X += h(a…)  with h a multi-statement helper:  tmp = <h spliced>; X += tmp     (X a plain name / attribute: reading it after h ran
+            # instead of before makes no difference unless h rebinds it, which a spliced private helper of this shape does not)
+            h, base = self.helper(st.value)
+            if h is not None and not any(isinstance(x, (ast.Yield, ast.YieldFrom)) for x in walk_local(h.node)) \
+                    and not any(isinstance(x, ast.Name) and isinstance(st.target, ast.Name) and x.id == st.target.id and not isinstance(x.ctx, ast.Load)
+                                for x in ast.walk(h.node)):
+                self.count += 1
+                tmp = "value__a%d" % self.count
+                first = loc(ast.Assign(targets=[ast.Name(id=tmp, ctx=ast.Store())], value=st.value))
+                second = loc(ast.AugAssign(target=copy_tree(st.target), op=st.op, value=ast.Name(id=tmp, ctx=ast.Load())))
+                return [first, second]
         if isinstance(st, ast.If):
             rep = self.branch_condition(st, loc)
             if rep is not None:
@@ -858,6 +870,37 @@ def _merge_repeated_tests(stmts, held=()):
     return out or [ast.Pass()]
 
 
+def _split_tuple_unpacks(node):
+    """t = (x, y); a, b = t      (adjacent statements; t a plain local, x / y plain names or literals)
+       ->  t = (x, y); a = x; b = y      — a pair bundled into one parameter and unpacked on the first line of the helper"""
+    changed = [False]
+
+    def block(stmts):
+        out = []
+        for i, st in enumerate(stmts):
+            prev = out[-1] if out else None
+            if isinstance(st, ast.Assign) and len(st.targets) == 1 and isinstance(st.targets[0], ast.Tuple) and isinstance(st.value, ast.Name) \
+                    and isinstance(prev, ast.Assign) and len(prev.targets) == 1 and isinstance(prev.targets[0], ast.Name) and prev.targets[0].id == st.value.id \
+                    and isinstance(prev.value, ast.Tuple) and len(prev.value.elts) == len(st.targets[0].elts) \
+                    and all(isinstance(t, ast.Name) for t in st.targets[0].elts) and all(isinstance(x, (ast.Name, ast.Constant)) for x in prev.value.elts) \
+                    and not ({t.id for t in st.targets[0].elts} & {x.id for x in prev.value.elts if isinstance(x, ast.Name)}):
+                out.extend(ast.copy_location(ast.Assign(targets=[t], value=copy_tree(x)), st) for t, x in zip(st.targets[0].elts, prev.value.elts))
+                changed[0] = True
+                continue
+            for fld in ("body", "orelse", "finalbody"):
+                sub = getattr(st, fld, None)
+                if isinstance(sub, list) and sub and isinstance(sub[0], ast.stmt) and not isinstance(st, (ast.FunctionDef, ast.AsyncFunctionDef, ast.ClassDef)):
+                    setattr(st, fld, block(sub))
+            for h in getattr(st, "handlers", []) or []:
+                h.body = block(h.body)
+            out.append(st)
+        return out
+    node.body = block(node.body)
+    if changed[0]:
+        ast.fix_missing_locations(node)
+    return changed[0]
+
+
 _records_cache = {}
 
 
@@ -998,6 +1041,8 @@ def inlined_view(P, f, keep=()):
     inl = _Inliner(P, f, keep)
     node.body = inl.stmts(node.body, 0)
     recs, lams = _records(P)
+    if inl.inlined:
+        _split_tuple_unpacks(node)
     scalar = bool(inl.inlined) and _scalarise_records(node, recs)
     aliased = _substitute_field_aliases(node)
     if not inl.inlined and not aliased:
